@@ -163,6 +163,26 @@ fn oracle_spk<Pk: KeyOf>(shape: &Shape, d: &Descriptor<Pk>, secp: &Secp256k1<sec
     })
 }
 
+/// Merkle root (hex, `-` for none) and output key, both from rust-bitcoin's TaprootBuilder / tap_tweak
+fn tr_root_and_key<Pk: KeyOf>(k: u32, d: &Descriptor<Pk>, secp: &Secp256k1<secp256k1::All>) -> Result<(String, miniscript::bitcoin::key::TweakedPublicKey), String> {
+    let ik = Pk::of(k).to_x_only_pubkey();
+    let mut b = TaprootBuilder::new();
+    let mut any = false;
+    if let Descriptor::Tr(tr) = d {
+        for leaf in tr.leaves() {
+            any = true;
+            b = b.add_leaf(leaf.depth(), leaf.miniscript().encode()).map_err(|e| e.to_string())?;
+        }
+    }
+    if !any {
+        let (ok, _) = miniscript::bitcoin::key::TapTweak::tap_tweak(ik, secp, None);
+        return Ok(("-".into(), ok));
+    }
+    let info = b.finalize(secp, ik).map_err(|_| "taproot builder not finalizable".to_string())?;
+    let root = info.merkle_root().map(|r| hex(r.as_byte_array())).unwrap_or_else(|| "-".into());
+    Ok((root, info.output_key()))
+}
+
 fn tr_output_key<Pk: KeyOf>(k: u32, d: &Descriptor<Pk>, secp: &Secp256k1<secp256k1::All>) -> Result<miniscript::bitcoin::key::TweakedPublicKey, String> {
     let ik = Pk::of(k).to_x_only_pubkey();
     let mut b = TaprootBuilder::new();
@@ -230,7 +250,10 @@ fn oracle_sighash<Pk: KeyOf>(shape: &Shape, d: &Descriptor<Pk>) -> Result<(), St
     Ok(())
 }
 
-const NETS: [Network; 4] = [Network::Bitcoin, Network::Testnet, Network::Signet, Network::Regtest];
+const NETS: [Network; 5] = [Network::Bitcoin, Network::Testnet, Network::Testnet4, Network::Signet, Network::Regtest];
+fn net_name(n: Network) -> &'static str {
+    match n { Network::Bitcoin => "bitcoin", Network::Testnet => "testnet", Network::Testnet4 => "testnet4", Network::Signet => "signet", _ => "regtest" }
+}
 
 fn oracle_addr<Pk: KeyOf>(shape: &Shape, d: &Descriptor<Pk>) -> Result<(), String> {
     let spk = d.script_pubkey();
@@ -280,6 +303,21 @@ fn emit_outputs<Pk: KeyOf>(out: &mut Out, shape: &Shape, secp: &Secp256k1<secp25
         _ => expl.clone(),
     };
     out.line(&format!("J outspec {} {} {} {} {} {}", shape.ty(), data, hx(&spk), expl, code, uss), "ok");
+    // address strings on every network: model (C) and specification + Lean decoder (J)
+    for net in NETS {
+        if let Ok(a) = d.address(net) {
+            if !is_tr { out.line(&format!("C addrstr {} {}", w, net_name(net)), &a.to_string()); }
+            out.line(&format!("J addrspec {} {} {} {}", shape.ty(), net_name(net), data, a), "ok");
+        } else if !is_tr {
+            out.line(&format!("C addrstr {} {}", w, net_name(net)), "ERR");
+        }
+    }
+    // taproot: the model computes the Merkle root itself; rust-bitcoin supplies root -> output key
+    if let Shape::Tr(k, _) = shape {
+        if let Ok((root, key)) = tr_root_and_key::<Pk>(*k, &d, secp) {
+            out.line(&format!("C trspk {} {} {}", w, root, hex(&key.serialize())), &hx(&spk));
+        }
+    }
     let v = verdict(oracle_spk::<Pk>(shape, &d, secp).and_then(|s| if s == spk { Ok(()) } else { Err(format!("rebuilt {} != {}", hx(&s), hx(&spk))) }));
     out.line(&format!("J rustoracle spk-from-explicit {} {}", w, v), "ok");
     out.line(&format!("J rustoracle addr-4nets {} {}", w, verdict(oracle_addr::<Pk>(shape, &d))), "ok");
